@@ -128,7 +128,7 @@ def main():
             else:
                 # known-finding corpus and regression corpus first
                 kf = common.known_findings()
-                corpus = [e for e in kf.get("findings", []) if e["property"] == prop]
+                corpus = [e for e in kf.get("findings", []) if e["property"] == prop and e.get("case")]
                 regress = [e for e in kf.get("fixed", []) if e["property"] == prop and e.get("case")]
                 if corpus or regress:
                     sub = Ctx(prop, tier, seed, quiet=True)
